@@ -188,6 +188,30 @@ def deleteIdxFrom (idxs : List Nat) (i : Nat) : Bytes → Bytes
 
 def deleteIdx (l : Bytes) (idxs : List Nat) : Bytes := deleteIdxFrom idxs 0 l
 
+/-- `np.delete(arr, idxs)` with NumPy's bounds check: an index `≥ len(arr)` raises IndexError (`none`) -/
+def deleteChecked (l : Bytes) (idxs : List Nat) : Option Bytes :=
+  if idxs.all (fun i => decide (i < l.length)) then some (deleteIdx l idxs) else none
+
+/-- the newline positions the code deletes from the bytes it read -/
+def newlineIdxs (r : IdxRow) (a b : Nat) : List Nat :=
+  (List.range (b / r.lenc - a / r.lenc)).map (fun j => r.lenb * (j + 1) - 1 - a % r.lenc)
+
+/-- the bytes the code reads for `[a, b)` -/
+def rawRead (file : Bytes) (r : IdxRow) (a b : Nat) : Bytes :=
+  (file.drop (r.offset + (a / r.lenc * r.lenb + a % r.lenc))).take
+    ((b / r.lenc * r.lenb + b % r.lenc) - (a / r.lenc * r.lenb + a % r.lenc))
+
+/-- interval fetch with the IndexError of `np.delete` modelled, as shipped before the repair -/
+def fetchIntervalOld (file : Bytes) (r : IdxRow) (a b : Nat) : Option Bytes :=
+  deleteChecked (rawRead file r a b) (newlineIdxs r a b)
+
+/-- … as repaired: a last newline position equal to the number of bytes read (a full last line at the
+end of a file without final newline) is dropped -/
+def fetchIntervalChecked (file : Bytes) (r : IdxRow) (a b : Nat) : Option Bytes :=
+  let raw := rawRead file r a b
+  let idxs := newlineIdxs r a b
+  deleteChecked raw (if idxs.getLast? = some raw.length then idxs.dropLast else idxs)
+
 /-- `get_interval_sequences` for one interval `[a, b)` (both code paths use this arithmetic) -/
 def fetchInterval (file : Bytes) (r : IdxRow) (a b : Nat) : Bytes :=
   let startRow := a / r.lenc
